@@ -8,6 +8,7 @@ import (
 
 	"github.com/glebziz/fs_db"
 	"github.com/glebziz/fs_db/internal/model"
+	"github.com/glebziz/fs_db/internal/model/reclaim"
 	"github.com/glebziz/fs_db/internal/utils/wpool"
 )
 
@@ -55,6 +56,8 @@ func (u *UseCase) DeleteFiles(ctx context.Context, files []model.File) error {
 }
 
 func (u *UseCase) deleteFile(ctx context.Context, file model.File) error {
+	defer reclaim.Remove()()
+
 	cf, err := u.cfRepo.Get(ctx, file.ContentId)
 	if errors.Is(err, fs_db.ErrNotFound) {
 		return nil
